@@ -1,20 +1,38 @@
-import CedarVerif.Lemmas.PolicySetApi
+import CedarVerif.Lemmas.PolicySetApiRefine
+import CedarVerif.Lemmas.PolicySetMergeThm
+import CedarVerif.Lemmas.PolicySetApiMerge
 /-
 C08 — Template linking equals substitution; policy-set edits keep ids consistent.
 
-Property theorems only (helpers: Lemmas/PolicySetSubst, PolicySetMap, PolicySetInv, PolicySetHist).
+Property theorems only (helpers: Lemmas/PolicySet{Subst,Map,Inv,Hist,Api,Spec,Refine,Proj,ApiRefine,Fold,Merge,MergeInv,
+MergeWF,Fresh,MergeThm,ApiMerge}).
 The statements are about the mirrors in Cedar/PolicySet.lean of `Template::{condition,check_binding,link}`,
 of `ast::PolicySet` and of the public `cedar_policy::PolicySet`.
 
-Proved at full strength: `link_eq_subst`, `link_ok_iff`, `op_inv`, `op_fail_unchanged`, `no_panic`,
-`history_inv`, `authorize_considers_exactly_links` — for the core operations add_static, add_template, link,
-unlink, remove_static, remove_template — and, for the public API layer (`add`, `add_template`, `link`, `unlink`,
-`remove_static`, `remove_template` of `cedar_policy::PolicySet`), `api_op_inv` / `api_history_inv` (unconditional:
-the API's own guard makes every core `link` admissible) and `api_add_is_add_static`.
-Stated, not proved (visible as `def … : Prop`): the same for `merge_policyset` (`MergeInv`), the refinement of the
-abstract specification (`RefinesSpec`; proved here only for the ok/fail verdict of `link`:
-`refines_spec_partial`), and the exact projection property of the API layer's `policies` map (`ApiProjection`).
-These are covered by the correspondence run and the abstract-specification oracle of the harness.
+Proved (all unconditional unless a hypothesis is named):
+* linking = substitution: `link_eq_subst`, `link_outcome_eq_subst`, `link_ok_iff`, `pset_link_ok_iff`;
+* the core state machine (add_static, add_template, link, unlink, remove_static, remove_template): `op_inv`,
+  `op_fail_unchanged`, `no_panic`, `history_inv`, `authorize_considers_exactly_links`;
+* refinement of the abstract specification `Spec`: `refines_spec : RefinesSpec` (every non-merge core operation on a
+  well-formed set — `link` on a template id that is not a policy id — succeeds iff the abstract operation succeeds on
+  `ps.abs`, and then `abs` of the result has exactly the members of the abstract result), `op_refines_spec` (the same
+  against any related abstract state, incl. the state after a failure), `history_refines_spec` (after any admissible
+  history from the empty set the set contains exactly the statics, templates and links the successful operations imply);
+* the public API layer: `api_op_inv`, `api_history_inv`, `api_add_is_add_static`, `api_op_proj` / `api_projection :
+  ApiProjection` (the API's `policies` and `templates` maps are exact projections of the core maps in every reachable
+  state), `api_op_refines_spec` / `api_history_refines_spec` (no admissibility hypothesis: the API's guards are the
+  specification's), `api_history_strict`;
+* merge_policyset: `MergeInv` as first stated (both arguments `WF` only) is false — `mergeInv_false`, a core-only
+  counterexample (slot-less bare template); restated with the invariant of API-built sets as `MergeInvApi` and proved:
+  `merge_inv`, with `merge_no_panic_fail_unchanged` (unconditional), `merge_renaming_ok` (the renaming renames exactly
+  the conflicting ids to fresh, pairwise distinct ids; `get_fresh_id` terminates within the model's fuel) and
+  `merge_inv_api_histories`.
+* the API layer's `merge` and all reachable states: `api_merge_inv` (invariant and projections preserved, its
+  `get(pid).unwrap()`s unreachable, failure changes nothing), `api_reachable_inv` (`Invariant` and `ApiProjection` in
+  every state reachable by the six operations and merges).
+Not proved: the refinement of a specification-level merge (the abstract `Spec` has no merge operation: what the merged
+set contains is characterised only concretely, `PolicySet.U_templates` / `U_links` / `U_t2l`); covered by the
+correspondence run and the abstract-specification oracle of the harness.
 -/
 namespace Cedar.C08
 open Cedar
@@ -189,18 +207,17 @@ example :
     ((ApiPolicySet.run {} (ops.take 2)).applyOp (.link "a" "l" {})).err = some .expectedTemplate := by
   decide +kernel
 
-/-! ## stated, not proved here (checked by the correspondence run and the harness oracle) -/
+/-! ## statements of the merge / projection / refinement properties (proved below, `MergeInv` refuted and restated) -/
 
 /-- `merge_policyset` preserves the invariant (both arguments well-formed), never reaches its `unwrap`, and on
-failure (conflict without renaming) changes nothing. -/
+failure (conflict without renaming) changes nothing. FALSE in this form (`mergeInv_false`); the version with the
+precise hypothesis is `MergeInvApi`, proved as `merge_inv`. -/
 def MergeInv : Prop :=
   ∀ (ps other : PolicySet) (rename : Bool), ps.WF → other.WF →
     (ps.merge other rename).ps.WF ∧ (∀ m, (ps.merge other rename).err ≠ some (.panic m)) ∧
     ((ps.merge other rename).err ≠ none → (ps.merge other rename).ps = ps)
 
-/-- the API layer's own maps are exactly the projections of the core set (proved: the `templates` half as an
-inclusion, inside `ApiPolicySet.WF`; the rest is checked by the correspondence: the listing of the API runs is read
-from the API maps, that of the core runs from the core maps) -/
+/-- the API layer's own maps are exactly the projections of the core set (proved: `api_projection`) -/
 def ApiProjection : Prop :=
   ∀ (ops : List ApiOp), (∀ op, op ∈ ops → op.wellTyped) →
     let s := ApiPolicySet.run {} ops
@@ -208,7 +225,7 @@ def ApiProjection : Prop :=
     (∀ k t, s.templates.get? k = some t ↔ (s.ast.templates.get? k = some t ∧ s.ast.links.get? k = none))
 
 /-- abstraction commutes with every operation: a successful call is a successful step of the abstract
-specification with the same resulting sets (as sets), a failed call is a failed step -/
+specification with the same resulting sets (as sets), a failed call is a failed step (proved: `refines_spec`) -/
 def RefinesSpec : Prop :=
   ∀ (ps : PolicySet) (op : CoreOp) (sop : Spec.Op), ps.WF → op.admissible ps →
     (match op, sop with
@@ -226,8 +243,8 @@ def RefinesSpec : Prop :=
         (∀ x, x ∈ (ps.applyOp op).ps.abs.templates ↔ x ∈ sp.templates) ∧
         (∀ x, x ∈ (ps.applyOp op).ps.abs.links ↔ x ∈ sp.links)
 
-/-- the part of `RefinesSpec` proved here: for `link`, the implementation's verdict is the one the abstract
-conditions dictate (template exists, exactly its slots bound, id free) -/
+/-- for `link`, the implementation's verdict is the one the abstract conditions dictate (template exists, exactly
+its slots bound, id free) — without the invariant and without admissibility -/
 theorem refines_spec_partial (ps : PolicySet) (tid newId : String) (vals : SlotVals) :
     (ps.applyOp (.link tid newId vals)).err = none ↔
       ∃ t, ps.templates.get? tid = some t ∧ t.checkBinding vals = true ∧
@@ -237,5 +254,225 @@ theorem refines_spec_partial (ps : PolicySet) (tid newId : String) (vals : SlotV
   constructor
   · rintro ⟨t, h1, h2, h3⟩; exact ⟨t, h1, (checkBinding_iff t vals).mpr h2, h3⟩
   · rintro ⟨t, h1, h2, h3⟩; exact ⟨t, h1, (checkBinding_iff t vals).mp h2, h3⟩
+
+/-- C08: `RefinesSpec` holds — every non-merge operation of the core set, applied to a well-formed set (for `link`:
+on a template id that is not a policy id), succeeds exactly when the abstract operation succeeds on `ps.abs`, and then
+`abs` of the result has exactly the members of the abstract result. -/
+theorem refines_spec : RefinesSpec := by
+  intro ps op sop wf adm hm
+  have hsop : sop = op.toSpec := by
+    cases op <;> cases sop <;> simp only [CoreOp.toSpec] at hm ⊢ <;>
+      first
+        | exact hm.elim
+        | (obtain ⟨rfl, rfl, rfl⟩ := hm; rfl)
+        | (obtain ⟨rfl, _⟩ := hm; rfl)
+        | (cases hm; rfl)
+  subst hsop
+  have wf' := PolicySet.applyOp_wf ps op wf adm
+  have h := PolicySet.applyOp_refines ps op ps.abs wf adm (PolicySet.absRel_abs ps wf.tNodup wf.lNodup)
+  cases hs : ps.abs.apply op.toSpec with
+  | none => rw [hs] at h; exact h.1
+  | some sp => rw [hs] at h; exact ⟨h.1, (PolicySet.absRel_abs _ wf'.tNodup wf'.lNodup).same h.2⟩
+
+/-- the same against any abstract state with the members of `ps.abs` (`PolicySet.AbsRel`: statics = links without
+link id, templates = templates that are not policy ids, links = links with link id), including what a failed call
+leaves behind: a state still related to the unchanged abstract state -/
+theorem op_refines_spec (ps : PolicySet) (op : CoreOp) (sp : Spec) (wf : Invariant ps) (adm : op.admissible ps)
+    (R : ps.AbsRel sp) :
+    match sp.apply op.toSpec with
+    | none => (ps.applyOp op).err ≠ none ∧ (ps.applyOp op).ps.AbsRel sp
+    | some sp' => (ps.applyOp op).err = none ∧ (ps.applyOp op).ps.AbsRel sp' :=
+  PolicySet.applyOp_refines ps op sp wf adm R
+
+/-- C08: after any history of core operations from the empty set (links issued as the API issues them), the set
+contains exactly the static policies, templates and links that the successful operations imply: its abstraction has
+the members of the state reached by the abstract specification, where a failed operation changes nothing. -/
+theorem history_refines_spec (ops : List CoreOp) (adm : PolicySet.admissibleHist {} ops) :
+    (PolicySet.run {} ops).AbsRel (Spec.run {} (ops.map CoreOp.toSpec)) ∧
+    (∀ x, x ∈ (PolicySet.run {} ops).abs.statics ↔ x ∈ (Spec.run {} (ops.map CoreOp.toSpec)).statics) ∧
+    (∀ x, x ∈ (PolicySet.run {} ops).abs.templates ↔ x ∈ (Spec.run {} (ops.map CoreOp.toSpec)).templates) ∧
+    (∀ x, x ∈ (PolicySet.run {} ops).abs.links ↔ x ∈ (Spec.run {} (ops.map CoreOp.toSpec)).links) := by
+  have R := PolicySet.run_refines ops {} {} PolicySet.wf_empty adm PolicySet.absRel_empty
+  have wf := PolicySet.run_wf ops {} PolicySet.wf_empty adm
+  exact ⟨R, (PolicySet.absRel_abs _ wf.tNodup wf.lNodup).same R⟩
+
+example :
+    let b : TemplateBody := { id := "a", annotations := [], effect := .permit, principalC := .any, actionC := .any, resourceC := .any, nonScope := none }
+    let t : Template := { body := { b with id := "t", principalC := .eq .slot }, slots := [.principal] }
+    let ops := [CoreOp.addStatic b, .addTemplate t, .link "t" "l" { principal := some ⟨"User", "u"⟩ }, .addStatic b, .removeTemplate "t",
+                .removeStatic "l", .unlink "l", .removeTemplate "t", .addTemplate t, .link "t" "l2" {}]
+    PolicySet.admissibleHist {} ops ∧
+    (Spec.run {} (ops.map CoreOp.toSpec)).statics.map (·.1) = ["a"] ∧
+    (Spec.run {} (ops.map CoreOp.toSpec)).templates.map (·.1) = ["t"] ∧
+    (Spec.run {} (ops.map CoreOp.toSpec)).links = [] ∧
+    ((Spec.run {} ((ops.take 3).map CoreOp.toSpec)).apply (.removeTemplate "t")).isNone = true := by
+  decide +kernel
+
+/-- the known core-only behaviour, as a counterexample to `RefinesSpec` without admissibility: the core `link`
+accepts the body of a static policy as a template where the specification (and the API) refuses -/
+example :
+    let b : TemplateBody := { id := "a", annotations := [], effect := .permit, principalC := .any, actionC := .any, resourceC := .any, nonScope := none }
+    let ps := (PolicySet.addStatic {} b).ps
+    (ps.link "a" "l" {}).err = none ∧ (ps.abs.apply (.link "a" "l" {})).isNone = true ∧
+    ¬ (CoreOp.link "a" "l" {}).admissible ps := by
+  decide +kernel
+
+/-! ### … and for the public API layer, unconditionally -/
+
+/-- C08 (API layer): `ApiProjection` as an invariant: every operation preserves "the API's `policies` map is the
+core `links` map and the API's `templates` map is the core templates that are not policy ids". -/
+theorem api_op_proj (s : ApiPolicySet) (op : ApiOp) (wf : s.WF) (pr : s.Proj) : (s.applyOp op).ps.Proj :=
+  ApiPolicySet.applyOp_proj s op wf pr
+
+/-- C08 (API layer): `ApiProjection` holds. -/
+theorem api_projection : ApiProjection := by
+  intro ops wt
+  have h := (ApiPolicySet.run_proj ops {} ApiPolicySet.wf_empty ApiPolicySet.proj_empty wt).2
+  refine ⟨fun k p => ?_, h.tmpl⟩
+  rw [h.pol]
+
+/-- C08 (API layer): one call refines the abstract operation: same verdict, related states — no admissibility
+hypothesis (the API's guards are the specification's). -/
+theorem api_op_refines_spec (s : ApiPolicySet) (op : ApiOp) (sp : Spec) (wf : s.WF) (pr : s.Proj)
+    (R : s.ast.AbsRel sp) :
+    match sp.apply op.toSpec with
+    | none => (s.applyOp op).err ≠ none ∧ (s.applyOp op).ps.ast.AbsRel sp
+    | some sp' => (s.applyOp op).err = none ∧ (s.applyOp op).ps.ast.AbsRel sp' :=
+  ApiPolicySet.applyOp_refines s op sp wf pr R
+
+/-- C08 (API layer), the unconditional statement: after any sequence of add, add_template, link, unlink,
+remove_static, remove_template calls on the public `PolicySet` starting from the empty set, the set contains exactly
+the static policies, templates and links that the successful operations imply (the state of the abstract
+specification run on the same calls), and the listings `policies()` / `templates()` of the API are those. -/
+theorem api_history_refines_spec (ops : List ApiOp) (wt : ∀ op, op ∈ ops → op.wellTyped) :
+    (ApiPolicySet.run {} ops).ast.AbsRel (Spec.run {} (ops.map ApiOp.toSpec)) ∧
+    (∀ x, x ∈ (ApiPolicySet.run {} ops).abs.statics ↔ x ∈ (Spec.run {} (ops.map ApiOp.toSpec)).statics) ∧
+    (∀ x, x ∈ (ApiPolicySet.run {} ops).abs.templates ↔ x ∈ (Spec.run {} (ops.map ApiOp.toSpec)).templates) ∧
+    (∀ x, x ∈ (ApiPolicySet.run {} ops).abs.links ↔ x ∈ (Spec.run {} (ops.map ApiOp.toSpec)).links) ∧
+    (∀ k t, (ApiPolicySet.run {} ops).templates.get? k = some t ↔ (k, t) ∈ (Spec.run {} (ops.map ApiOp.toSpec)).templates) := by
+  have R := ApiPolicySet.run_refines ops {} {} ApiPolicySet.wf_empty ApiPolicySet.proj_empty wt PolicySet.absRel_empty
+  obtain ⟨wf, pr⟩ := ApiPolicySet.run_proj ops {} ApiPolicySet.wf_empty ApiPolicySet.proj_empty wt
+  obtain ⟨h1, h2, h3⟩ := (PolicySet.absRel_abs _ wf.ast.tNodup wf.ast.lNodup).same R
+  refine ⟨R, h1, h2, h3, fun k t => ?_⟩
+  rw [pr.tmpl, R.templates]
+
+example :
+    let b : TemplateBody := { id := "a", annotations := [], effect := .permit, principalC := .any, actionC := .any, resourceC := .any, nonScope := none }
+    let t : Template := { body := { b with id := "t", principalC := .eq .slot }, slots := [.principal] }
+    let ops := [ApiOp.add b, .link "a" "l" {}, .addTemplate t, .link "t" "l" { principal := some ⟨"User", "u"⟩ }, .removeStatic "l",
+                .removeTemplate "t", .unlink "a"]
+    (∀ op, op ∈ ops → op.wellTyped) ∧
+    (Spec.run {} (ops.map ApiOp.toSpec)).statics.map (·.1) = ["a"] ∧
+    (Spec.run {} (ops.map ApiOp.toSpec)).templates.map (·.1) = ["t"] ∧
+    (Spec.run {} (ops.map ApiOp.toSpec)).links = [("l", ("t", { principal := some ⟨"User", "u"⟩ }))] := by
+  refine ⟨?_, by decide +kernel⟩
+  intro op hop
+  simp only [List.mem_cons, List.not_mem_nil, or_false] at hop
+  rcases hop with rfl | rfl | rfl | rfl | rfl | rfl | rfl <;> simp [ApiOp.wellTyped]
+
+/-! ### merge_policyset -/
+
+/-- `MergeInv` as first stated — well-formedness of both arguments only — is FALSE of the model (and of the code it
+mirrors): take `ps` = a slot-less bare template "a" with a link "l" to it (a core-only state: `Template::parse` and the
+API never produce a slot-less template) and `other` = the static policy "a" with the same body. Both are well-formed;
+the templates are equal, so nothing is renamed, and the merged set has the static policy "a" *and* the link "l" to its
+body: `staticOne` fails (a later `remove_static "a"` leaves "l" without template). This is the same core-only envelope
+as the known link-to-static-template behaviour of `op_inv`. -/
+theorem mergeInv_false : ¬ MergeInv := by
+  intro h
+  exact PolicySet.cex_not_wf true (h PolicySet.cexA PolicySet.cexB true PolicySet.cex_wf.1 PolicySet.cex_wf.2).1
+
+/-- the restatement with the precise hypothesis: both arguments satisfy the invariant of API-built sets
+(`PolicySet.Strict`: `Invariant`, no slot-less bare template, a static policy's template has no slots — what
+`api_history_strict` establishes for every set the public API builds), and the merged set satisfies it again -/
+def MergeInvApi : Prop :=
+  ∀ (ps other : PolicySet) (rename : Bool), ps.Strict → other.Strict →
+    (ps.merge other rename).ps.Strict ∧ (∀ m, (ps.merge other rename).err ≠ some (.panic m)) ∧
+    ((ps.merge other rename).err ≠ none → (ps.merge other rename).ps = ps)
+
+/-- C08: `merge_policyset` preserves the invariant (of API-built sets), never reaches its `unwrap`, and a failed merge
+changes nothing. -/
+theorem merge_inv : MergeInvApi := by
+  intro ps other rename hs ho
+  exact ⟨PolicySet.merge_strict ps other rename hs ho, PolicySet.merge_no_panic ps other rename,
+    fun h => (PolicySet.merge_fail_unchanged ps other rename h).1⟩
+
+/-- the last two parts hold for arbitrary arguments: the `unwrap` of `new_template_id` is guarded by
+`!other_policy.is_static()`, and the only failure is `Occupied`, returned before any mutation — exactly when renaming
+is off and some id of `other` conflicts -/
+theorem merge_no_panic_fail_unchanged (ps other : PolicySet) (rename : Bool) :
+    (∀ m, (ps.merge other rename).err ≠ some (.panic m)) ∧
+    ((ps.merge other rename).err ≠ none → (ps.merge other rename).ps = ps ∧ (ps.merge other rename).err = some .occupied) ∧
+    ((ps.merge other rename).err = none ↔ (rename = true ∨ PolicySet.mergeRenaming ps other = [])) :=
+  ⟨PolicySet.merge_no_panic ps other rename, PolicySet.merge_fail_unchanged ps other rename,
+   PolicySet.merge_ok_iff ps other rename⟩
+
+/-- C08: the renaming `merge_policyset` computes and returns renames exactly the conflicting ids of `other` (the four
+conditions of `PolicySet.Conflict`), to ids `policy{n}` bound in neither set and pairwise distinct — `get_fresh_id`'s
+loop terminates within the model's fuel. -/
+theorem merge_renaming_ok (ps other : PolicySet) (wf : Invariant other) :
+    PolicySet.RenOK ps other (PolicySet.mergeRenaming ps other) :=
+  PolicySet.mergeRenaming_ok ps other wf.tNodup wf.lNodup
+
+/-- C08 (API layer): every set built by add, add_template, link, unlink, remove_static, remove_template calls of the
+public `PolicySet` satisfies the hypothesis of `merge_inv` … -/
+theorem api_history_strict (ops : List ApiOp) (wt : ∀ op, op ∈ ops → op.wellTyped) :
+    (ApiPolicySet.run {} ops).ast.Strict :=
+  ApiPolicySet.run_strict ops {} ApiPolicySet.wf_empty (by intro k p h; simp at h) wt
+
+/-- … so merging the core sets of any two API-built sets yields a set satisfying the invariant. -/
+theorem merge_inv_api_histories (ops1 ops2 : List ApiOp) (rename : Bool)
+    (wt1 : ∀ op, op ∈ ops1 → op.wellTyped) (wt2 : ∀ op, op ∈ ops2 → op.wellTyped) :
+    Invariant ((ApiPolicySet.run {} ops1).ast.merge (ApiPolicySet.run {} ops2).ast rename).ps :=
+  (PolicySet.merge_strict _ _ rename (api_history_strict ops1 wt1) (api_history_strict ops2 wt2)).wf
+
+example :
+    let b : TemplateBody := { id := "a", annotations := [], effect := .permit, principalC := .any, actionC := .any, resourceC := .any, nonScope := none }
+    let t : Template := { body := { b with id := "t", principalC := .eq .slot }, slots := [.principal] }
+    let ps := ApiPolicySet.run {} [.add b, .addTemplate t, .link "t" "l" { principal := some ⟨"User", "u"⟩ }, .add { b with id := "policy0" }]
+    let other := ApiPolicySet.run {} [.add { b with effect := .forbid }, .addTemplate { t with body := { t.body with effect := .forbid } },
+                                      .link "t" "l" { principal := some ⟨"User", "v"⟩ }, .add { b with id := "z" }]
+    (ps.ast.merge other.ast true).rename = [("a", "policy1"), ("t", "policy2"), ("l", "policy3")] ∧
+    (ps.ast.merge other.ast true).ps.links.keys = ["a", "l", "policy0", "policy1", "policy3", "z"] ∧
+    (ps.ast.merge other.ast true).ps.templates.keys = ["a", "t", "policy0", "policy1", "policy2", "z"] ∧
+    (ps.ast.merge other.ast true).ps.t2l.get? "policy2" = some ["policy3"] ∧
+    (ps.ast.merge other.ast false).err = some .occupied := by
+  decide +kernel
+
+/-! ### the public API layer's merge; all reachable states -/
+
+/-- C08 (API layer): `PolicySet::merge` of two sets satisfying the invariant of the API layer (core set well-formed
+within the API envelope, `policies` / `templates` = projections of the core maps) yields such a set; none of its
+`get(pid).unwrap()`s (nor the core `unwrap`) is reachable; it fails exactly when the core merge fails, and then changes
+nothing. -/
+theorem api_merge_inv (s other : ApiPolicySet) (rename : Bool) (hs : s.Inv) (ho : other.Inv) :
+    (s.merge other rename).ps.Inv ∧ (∀ m, (s.merge other rename).err ≠ some (.panic m)) ∧
+    ((s.merge other rename).err ≠ none → (s.merge other rename).ps = s) ∧
+    ((s.merge other rename).err = none ↔ (s.ast.merge other.ast rename).err = none) :=
+  ApiPolicySet.merge_inv s other rename hs ho
+
+/-- C08 (API layer), every reachable state — any sequence of add, add_template, link, unlink, remove_static,
+remove_template and merges of sets built the same way: the core set satisfies the invariant (no id shared, no link
+without its template, `template_to_links_map` exact), and the API's maps are exactly the projections of the core maps
+(`ApiProjection`, now including `merge`). -/
+theorem api_reachable_inv (s : ApiPolicySet) (h : ApiReachable s) :
+    Invariant s.ast ∧ s.WF ∧
+    (∀ k p, s.policies.get? k = some p ↔ s.ast.links.get? k = some p) ∧
+    (∀ k t, s.templates.get? k = some t ↔ (s.ast.templates.get? k = some t ∧ s.ast.links.get? k = none)) := by
+  have hi := h.inv
+  refine ⟨hi.wf.ast, hi.wf, fun k p => ?_, hi.proj.tmpl⟩
+  rw [hi.proj.pol]
+
+example :
+    let b : TemplateBody := { id := "a", annotations := [], effect := .permit, principalC := .any, actionC := .any, resourceC := .any, nonScope := none }
+    let t : Template := { body := { b with id := "t", principalC := .eq .slot }, slots := [.principal] }
+    let ps := ApiPolicySet.run {} [.add b, .addTemplate t, .link "t" "l" { principal := some ⟨"User", "u"⟩ }]
+    let other := ApiPolicySet.run {} [.add { b with effect := .forbid }, .addTemplate t, .link "t" "l2" { principal := some ⟨"User", "v"⟩ }]
+    (ps.merge other true).rename = [("a", "policy0")] ∧
+    (ps.merge other true).ps.policies.keys = ["a", "l", "policy0", "l2"] ∧
+    (ps.merge other true).ps.templates.keys = ["t"] ∧
+    (ps.merge other true).ps.ast.t2l.get? "t" = some ["l", "l2"] ∧
+    (ps.merge other false).err = some .alreadyDefined := by
+  decide +kernel
 
 end Cedar.C08
